@@ -2,8 +2,8 @@
    Reads observation lines produced by `maxi run` (see harness/src/bin/maxi.rs) and prints
      <id> OK | <id> PROPFAIL <why> | <id> DIFF <why>
    PROPFAIL: an answer of the implementation contradicts the property, as decided by the
-   checkers extracted from Coq (check_max / check_argmax / check_threshold / check_padding,
-   proved sound in MaxiProofs.v): the reported maximum is not the largest cell value, the
+   checkers extracted from Coq (check_C07 = check_max && check_argmax && check_threshold, and
+   check_padding; proved sound: check_C07_sound / check_padding_sound in coq/maxi/C07.v): the reported maximum is not the largest cell value, the
    reported arg-maximum is out of range or does not hold the maximum, the threshold list is
    not exactly the qualifying cells (each once), None/Some is wrong, an entry point panicked
    where no explicit guard of the code applies, or two arms disagree on the maximum value /
@@ -11,7 +11,21 @@
    coordinates, exact order of the threshold list) although the property checker passed. *)
 open Maxi_model
 
-let nat_of_int n = let rec go acc k = if k <= 0 then acc else go (S acc) (k - 1) in go O n
+(* unary naturals are shared through a growing table: nat (n+1) = S (nat n), so that long
+   lists of coordinates / offsets cost one word per distinct number *)
+let nat_tbl = ref [| O |]
+let nat_of_int n =
+  if n <= 0 then O else begin
+    let len = Array.length !nat_tbl in
+    if n >= len then begin
+      let nl = max (n + 1) (2 * len) in
+      let a = Array.make nl O in
+      Array.blit !nat_tbl 0 a 0 len;
+      for i = len to nl - 1 do a.(i) <- S a.(i - 1) done;
+      nat_tbl := a
+    end;
+    !nat_tbl.(n)
+  end
 let int_of_nat n = let rec go acc = function O -> acc | S k -> go (acc + 1) k in go 0 n
 let rec pos_of_int n =
   if n = 1 then XH else if n land 1 = 0 then XO (pos_of_int (n lsr 1)) else XI (pos_of_int (n lsr 1))
@@ -19,6 +33,7 @@ let z_of_int n = if n = 0 then Z0 else if n > 0 then Zpos (pos_of_int n) else Zn
 let n_of_int n = if n = 0 then N0 else Npos (pos_of_int n)
 let rec int_of_pos = function XH -> 1 | XO p -> 2 * int_of_pos p | XI p -> 2 * int_of_pos p + 1
 let int_of_z = function Z0 -> 0 | Zpos p -> int_of_pos p | Zneg p -> - (int_of_pos p)
+let int_of_n = function N0 -> 0 | Npos p -> int_of_pos p
 
 let split c s = if s = "" then [] else String.split_on_char c s
 let kv tok = match String.index_opt tok '=' with
@@ -73,6 +88,7 @@ type 'v elt = {
   chk_max : 'v list list -> 'v option -> bool;
   chk_argmax : 'v list list -> (nat * nat) option -> bool;
   chk_threshold : 'v list list -> 'v -> (nat * nat) list -> bool;
+  chk_all : 'v list list -> 'v -> 'v option -> (nat * nat) option -> (nat * nat) list -> bool;  (* check_C07 *)
   value_eq : 'v -> 'v -> bool;          (* equality as values (le both ways) *)
 }
 
@@ -141,7 +157,15 @@ let check_entry (e : 'v elt) (m : 'v list list) (t : 'v) (domain : bool) (get : 
        let sorted = List.map coord_to_nat (sort_coords l) in
        if domain && not (e.chk_threshold m t sorted) then
          propfail "%s.threshold is not exactly the cells >= t (%d reported)" name (List.length l)
-       else if l <> Lazy.force model_th then diff "%s.threshold order/content differs from the model" name)
+       else if l <> Lazy.force model_th then diff "%s.threshold order/content differs from the model" name);
+  (* the three answers together, through the checker proved sound in C07.v (check_C07_sound) *)
+  (match obs_opt e.parse (get (name ^ ".max")), obs_opt parse_coord (get (name ^ ".am")),
+         obs_list parse_coord (get (name ^ ".th")) with
+   | Ans o1, Ans o2, Ans l when domain ->
+       let oc = match o2 with None -> None | Some rc -> Some (coord_to_nat rc) in
+       if not (e.chk_all m t o1 oc (List.map coord_to_nat (sort_coords l))) then
+         propfail "%s: check_C07 rejects (max, argmax, threshold)" name
+   | _ -> ())
 
 (* StripedScores-level entry point: offsets *)
 let check_striped (e : 'v elt) (m : 'v list list) (t : 'v) (domain : bool) (get : string -> string option)
@@ -241,6 +265,7 @@ let arm_of = function "G" -> AGeneric | "S" -> ASse2 | "A" -> AAvx2 | _ -> failw
 
 let conv_coord_opt = function None -> None | Some rc -> Some (coord_of_nat rc)
 let conv_nat_opt = function None -> None | Some n -> Some (int_of_nat n)
+let conv_n_opt = function None -> None | Some n -> Some (int_of_n n)
 
 (* ---------------- f32 ---------------- *)
 
@@ -255,6 +280,7 @@ let f32_elt : F32.t elt = {
   chk_max = f32_check_max;
   chk_argmax = f32_check_argmax;
   chk_threshold = f32_check_threshold;
+  chk_all = f32_check_C07;
   value_eq = (fun a b -> f32_le a b && f32_le b a);
 }
 
@@ -294,8 +320,8 @@ let run_f32 get_in get cols =
       check_entry e m t domain get ("d" ^ an) mx (lazy (of_res conv_coord_opt (Lazy.force am)))
         (lazy (List.map coord_of_nat (f32_dispatch_threshold a m t))) gmax;
       check_striped e m t domain get ("s" ^ an) rows cols mx
-        (lazy (of_res conv_nat_opt (f32_ss_argmax (Lazy.force am) m)))
-        (lazy (List.map int_of_nat (f32_ss_threshold m t)))
+        (lazy (of_res conv_n_opt (f32_ss_argmax (Lazy.force am) m)))
+        (lazy (List.map int_of_n (f32_ss_threshold m t)))
         (fun off -> of_res (fun x -> x) (f32_index_usize m (nat_of_int off))))
       ["G"; "S"; "A"]
   end;
@@ -307,7 +333,7 @@ let run_f32 get_in get cols =
   check_linear e lin t ldomain get
     (lazy (of_res (fun x -> x) (f32_lin_max lin)))
     (lazy (of_res conv_nat_opt (f32_lin_argmax lin)))
-    (lazy (List.map int_of_nat (f32_lin_threshold t lin)))
+    (lazy (List.map int_of_n (f32_lin_threshold t lin)))
 
 (* ---------------- u8 ---------------- *)
 
@@ -320,6 +346,7 @@ let u8_elt : z elt = {
   chk_max = u8_check_max;
   chk_argmax = u8_check_argmax;
   chk_threshold = u8_check_threshold;
+  chk_all = u8_check_C07;
   value_eq = (fun a b -> int_of_z a = int_of_z b);
 }
 
@@ -349,8 +376,8 @@ let run_u8 get_in get =
     let mx = lazy (of_res (fun x -> x) (u8_dispatch_max a m)) in
     check_entry e m t domain get ("d" ^ an) mx (lazy (of_res conv_coord_opt (Lazy.force am))) th_model gmax;
     check_striped e m t domain get ("s" ^ an) rows cols mx
-      (lazy (of_res conv_nat_opt (u8_ss_argmax (Lazy.force am) m)))
-      (lazy (List.map int_of_nat (u8_ss_threshold m t)))
+      (lazy (of_res conv_n_opt (u8_ss_argmax (Lazy.force am) m)))
+      (lazy (List.map int_of_n (u8_ss_threshold m t)))
       (fun off -> of_res (fun x -> x) (u8_index_usize m (nat_of_int off))))
     ["G"; "S"; "A"];
   let n = min mi (rows * cols) in
@@ -359,7 +386,7 @@ let run_u8 get_in get =
   check_linear e lin t true get
     (lazy (of_res (fun x -> x) (u8_lin_max lin)))
     (lazy (of_res conv_nat_opt (u8_lin_argmax lin)))
-    (lazy (List.map int_of_nat (u8_lin_threshold t lin)))
+    (lazy (List.map int_of_n (u8_lin_threshold t lin)))
 
 (* ---------------- end-to-end padding claim ---------------- *)
 
@@ -431,7 +458,16 @@ let run_e2e get_in get =
                  else if domain && not (f32_check_argmax m (Some (nat_of_int (off mod rows), nat_of_int (off / rows)))) then
                    propfail "%s.argmax does not designate a cell holding the maximum" an
                  else if domain && List.exists f32_is_finite valid_cells && off >= valid then
-                   propfail "%s.argmax designates a padding position although a valid one is finite" an)
+                   propfail "%s.argmax designates a padding position although a valid one is finite" an);
+            (* the whole padding claim through the checker proved sound in C07.v
+               (check_padding_max_sound); the messages above only say which part failed *)
+            (match obs_opt e.parse (get (an ^ ".max")), obs_opt int_of_string (get (an ^ ".am")) with
+             | Ans o, Ans a when domain ->
+                 let oa = match a with Some off when off >= 0 -> Some (nat_of_int off) | _ -> None in
+                 if (a = None || oa <> None)
+                    && not (f32_check_padding_max m (nat_of_int valid) (nat_of_int n) o oa) then
+                   propfail "%s: check_padding_max rejects (cells, max, argmax)" an
+             | _ -> ())
           end
         end)
     ["G"; "S"; "A"]
